@@ -1,9 +1,16 @@
 import TextxVerif.Wire
 import TextxVerif.Gen.Grammars
+import TextxVerif.Peg.RecX
 /-! Driver for the C24 recogniser on the generated graphs.
 {"op":"accept","input":"…","toks":[[[pos,len] …] per token id],"fuel":n}   (sparse: the matching positions)
-→ {"lang":r,"tx":r,"txo":r,"lexok":b}   r = "ok" | "fail" | "fuel" | "bad"
-`txo` = `unsep tx unproved`; `lexok` = the lexer hypotheses `hyps` hold on this token table.
+→ {"lang":r,"tx":r,"txo":r,"trap":r,"lexok":b,"notrail":[h …]}   r = "ok" | "fail" | "fuel" | "bad"
+`trap` = the instrumented graph `trap tx unproved`: a result other than "fuel" is the hypothesis `CleanRun L` of
+C24_agree_tx_run_partial (the actual run meets no trailing RREL separator);
+`txo` = `unsep tx unproved`; `lexok` = the lexer hypotheses `hyps` hold on this token table;
+`notrail` = per node of `unproved`, the hypothesis `NoTrailingSep tx i L` of C24_agree_tx_partial:
+"ends" (holds: sufficient condition `noTrailEndsB`, theorem C24_notrail_table), "scan" (bounded scan
+`noTrailScanB` over all positions finds no violation), "no" (scan finds a violation: false, C24_notrail_scan),
+"long" (text longer than 3000 characters and the sufficient condition fails: not evaluated).
 {"op":"info"} → sizes, unproved, hypotheses (for the evidence). -/
 open Lean Wire Rec Gen.Grammars
 
@@ -15,6 +22,7 @@ def cacheGraph (g : Graph) : Graph :=
 def gLang : Graph := cacheGraph lang
 def gTx : Graph := cacheGraph tx
 def gTxo : Graph := cacheGraph (unsep tx unproved)
+def gTrap : Graph := cacheGraph (trap tx unproved)
 
 def parseRow (size : Nat) (j : Json) : Option (Array (Option Nat)) := do
   let a ← asArr? j
@@ -33,6 +41,16 @@ def lexOkB (H : Hyps) (L : Lex) : Bool :=
     (H.nonempty.all fun t => match L.tok t p with | some len => decide (0 < len) | none => true) &&
     (H.alts.all fun ta => L.tok ta.1 p == firstTok L p ta.2)
 
+/-- end positions of the matches in one token row -/
+def rowEnds (row : Array (Option Nat)) : List Nat :=
+  (List.range row.size).filterMap fun p => ((row[p]?).join).map (p + ·)
+
+def noTrailStr (toks : Array (Array (Option Nat))) (L : Lex) (fuel : Nat) (i : Nat) : String :=
+  let ends := match toks[sepTok gTx i]? with | some row => rowEnds row | none => []
+  if noTrailEndsB gTx i L fuel ends then "ends"
+  else if L.input.size > 3000 then "long"   -- the scan is quadratic in the worst case: not evaluated on long texts
+  else if noTrailScanB gTx i L fuel then "scan" else "no"
+
 def handle (j : Json) : Json :=
   match getStr? j "op" with
   | some "accept" =>
@@ -43,7 +61,8 @@ def handle (j : Json) : Json :=
       let L : Lex := { input := input.toList.toArray,
                        tok := fun t p => match toks[t]? with | some row => (row[p]?).join | none => none }
       let run := fun (g : Graph) => resStr (parse g L fuel g.top false 0)
-      pure <| Json.mkObj [("lang", run gLang), ("tx", run gTx), ("txo", run gTxo), ("lexok", lexOkB hyps L)]
+      pure <| Json.mkObj [("lang", run gLang), ("tx", run gTx), ("txo", run gTxo), ("trap", run gTrap), ("lexok", lexOkB hyps L),
+                         ("notrail", toJson (unproved.map (noTrailStr toks L fuel)))]
     r.getD badOp
   | some "info" =>
     Json.mkObj [("lang_size", lang.size), ("tx_size", tx.size), ("txo_size", (unsep tx unproved).size),
